@@ -540,6 +540,27 @@ impl<'a> VisitMut for Rules<'a> {
     }
 
     fn visit_expr_mut(&mut self, e: &mut syn::Expr) {
+        // R35: let chain `if let P = E && C { B } [else X]`  ->  `if let P = E { if C { B } [else X] } [else X]` (the definition of a let chain with one binding)
+        if self.ctx.on("R35") {
+            if let syn::Expr::If(ei) = e {
+                if let syn::Expr::Binary(b) = &*ei.cond {
+                    if matches!(b.op, syn::BinOp::And(_)) {
+                        if let syn::Expr::Let(l) = &*b.left {
+                            let pat = (*l.pat).clone();
+                            let scrut = (*l.expr).clone();
+                            let guard = (*b.right).clone();
+                            let then = ei.then_branch.clone();
+                            // (nested ifs rather than a match guard: the verifier loses track of `&mut self` across an exec guard)
+                            *e = match &ei.else_branch {
+                                Some((_, x)) => { let x = (**x).clone(); syn::parse_quote!(if let #pat = #scrut { if #guard #then else #x } else #x) }
+                                None => syn::parse_quote!(if let #pat = #scrut { if #guard #then }),
+                            };
+                            self.ctx.used("R35");
+                        }
+                    }
+                }
+            }
+        }
         // R29: `matches!(E, P [if G])` -> `match E { P [if G] => true, _ => false }` (the macro's definition), so that the
         // other rules see the pattern and the guard
         if self.ctx.on("R29") || self.ctx.on("R10") {
